@@ -130,3 +130,91 @@ def install(ext):
     ext['sum_hook'] = sum_hook
     ext['modules']['np'].pad = np_pad
     ext['modules']['np'].linalg.norm = norm_
+
+
+# ------------------------------------------------------------------ statistics layer (C11/C12): weighted averages as a linear functional
+vsubs = z3.Function('vsubs', Vec, RealS, Vec)      # v - c  (the same constant subtracted from every component)
+vscale = z3.Function('vscale', Vec, RealS, Vec)    # c * v
+vsq = z3.Function('vsq', Vec, Vec)                 # component-wise square
+WAVG = z3.Function('WAVG', IntS, Vec, RealS)       # np.average(v, weights=w): w identified by a token (0 = no weights); normalised, non-negative
+
+def stats_axioms():
+    v = z3.Const('v!st', Vec); a, b = z3.Reals('a!st b!st'); w = z3.Int('w!st'); c = z3.Int('c!st')
+    return [ForAll([w, v, a], WAVG(w, vsubs(v, a)) == WAVG(w, v) - a, patterns=[WAVG(w, vsubs(v, a))]),
+            ForAll([w, v, a], WAVG(w, vscale(v, a)) == a * WAVG(w, v), patterns=[WAVG(w, vscale(v, a))]),
+            ForAll([w, v], WAVG(w, vsq(v)) >= 0, patterns=[WAVG(w, vsq(v))]),
+            ForAll([v, a], vsq(vscale(v, a)) == vscale(vsq(v), a * a), patterns=[vsq(vscale(v, a))]),
+            ForAll([v], vsubs(v, 0) == v, patterns=[vsubs(v, 0)]),
+            ForAll([v], vscale(v, 1) == v, patterns=[vscale(v, 1)]),
+            ForAll([v, a, b], vsubs(vsubs(v, a), b) == vsubs(v, a + b), patterns=[vsubs(vsubs(v, a), b)]),
+            ForAll([v, a, b], vscale(vscale(v, a), b) == vscale(v, a * b), patterns=[vscale(vscale(v, a), b)]),
+            ForAll([v, a, b], vscale(vsubs(v, a), b) == vsubs(vscale(v, b), a * b), patterns=[vscale(vsubs(v, a), b)]),
+            ForAll([v, a, c], comp(vsubs(v, a), c) == comp(v, c) - a, patterns=[comp(vsubs(v, a), c)]),
+            ForAll([v, a, c], comp(vscale(v, a), c) == a * comp(v, c), patterns=[comp(vscale(v, a), c)]),
+            ForAll([v, c], comp(vsq(v), c) == comp(v, c) * comp(v, c), patterns=[comp(vsq(v), c)]),
+            ForAll([a], Implies(a >= 0, And(N.SQRT(a) >= 0, N.SQRT(a) * N.SQRT(a) == a)), patterns=[N.SQRT(a)]),
+            ForAll([a], Implies(a > 0, And(N.SQRT(a) > 0, (1 / N.SQRT(a)) * (1 / N.SQRT(a)) * a == 1, (1 / N.SQRT(a)) * N.SQRT(a) == 1)), patterns=[N.SQRT(a)])]
+
+def weight_token(I, w):
+    """token of the weight vector behind an array value: positive rescaling does not change np.average"""
+    if w is None: return IntVal(0)
+    seen = 0
+    while isinstance(w, ArrRef) and seen < 10:
+        A = I.A(w)
+        if A.tag and A.tag[0] == 'smul' and isinstance(A.tag[2], ArrRef): w = A.tag[2]
+        elif A.tag and A.tag[0] in ('divs', 'copy') and isinstance(A.tag[1], ArrRef): w = A.tag[1]
+        else: break
+        seen += 1
+    toks = I.cur.setdefault('wtoks', {})
+    if w.id not in toks: toks[w.id] = IntVal(len(toks) + 1)
+    return toks[w.id]
+
+def np_average(I, a, axis=None, weights=None, **kw):
+    N.used('np.average (weighted mean: a normalised non-negative linear functional of each column)')
+    A = I.A(a)
+    tok = weight_token(I, weights)
+    if weights is not None:
+        W = I.A(weights)
+        if W.ndim == 1 and axis is not None:
+            sd = N.same_dim(W.shape[0], A.shape[axis])
+            if sd is False: raise RaiseEx('ValueError')
+            if sd is None: I.ob('shape:np.average weights', tz(W.shape[0]) == tz(A.shape[axis]), kind='shape')
+    I.cur.setdefault('avg_calls', []).append((a, weights, axis))
+    if A.ndim == 2 and axis == 0 and A.vecs is not None and A.vecs[0] == 1:
+        fn = A.vecs[1]
+        return I.new_arr(ArrVal((A.shape[1],), lambda j: WAVG(tok, fn(tz(j))), RealS, ('wavg', a, tok)))
+    if A.ndim == 1 and A.vecs is not None and axis in (None, 0):
+        c, v = A.vecs
+        return tz(c) * WAVG(tok, v)
+    if A.ndim == 1 and weights is None and axis in (None, 0):
+        N.used('np.average of a plain vector (opaque: result unconstrained)')
+        return I.fresh('avg', RealS)
+    raise Unsupported("np.average form")
+
+def stats_binop(I, op, a, b, what):
+    """column-vector arithmetic with a broadcast 1-D array / scalar keeps the vector-level representation"""
+    if not isinstance(a, ArrRef): return None
+    A = I.A(a)
+    if A.ndim != 2 or A.vecs is None or A.vecs[0] != 1 or A.sort != RealS: return None
+    fn = A.vecs[1]
+    if isinstance(b, ArrRef):
+        B = I.A(b)
+        if B.ndim != 1: return None
+        sd = N.same_dim(B.shape[0], A.shape[1])
+        if sd is False: raise RaiseEx('ValueError')
+        if sd is None: I.ob(f'shape:{what}', tz(B.shape[0]) == tz(A.shape[1]), kind='shape')
+        bj = lambda j: to_real(B.elem(tz(j)))
+    else:
+        if b is None: return None
+        bj = lambda j: to_real(tz(b))
+    if op is ast.Sub: nf = lambda j: vsubs(fn(j), bj(j)); el = lambda i, j: A.elem(i, j) - bj(j)
+    elif op is ast.Add: nf = lambda j: vsubs(fn(j), -bj(j)); el = lambda i, j: A.elem(i, j) + bj(j)
+    elif op is ast.Mult: nf = lambda j: vscale(fn(j), bj(j)); el = lambda i, j: A.elem(i, j) * bj(j)
+    elif op is ast.Div: nf = lambda j: vscale(fn(j), 1 / bj(j)); el = lambda i, j: A.elem(i, j) / bj(j)
+    elif op is ast.Pow and not isinstance(b, ArrRef) and conc(b) == 2: nf = lambda j: vsq(fn(j)); el = lambda i, j: A.elem(i, j) * A.elem(i, j)
+    else: return None
+    return I.new_arr(ArrVal(A.shape, el, RealS, None, False, (1, nf)))
+
+def install_stats(ext):
+    ext['modules']['np'].average = np_average
+    ext['mat_binop'] = stats_binop
